@@ -86,6 +86,21 @@ def ret_type_of(uni, slot):
     return RET_TYPES[sorted(uni.paths).index(slot) % len(RET_TYPES)]
 
 
+STR_FORMS = [('"', '"'), ('u"', '"'), ("r'", "'"), ('"""', '"""'), ("'", "'")]
+
+
+def _lit_parts(names, head_len, forms_on, salt):
+    """-> (joined text of the string literals, [(content start col, content end col)]) for literals written after `head`"""
+    col = head_len
+    parts, spans = [], []
+    for j, m in enumerate(names):
+        op, cl = STR_FORMS[(salt + j) % len(STR_FORMS)] if forms_on else STR_FORMS[0]
+        spans.append((col + len(op), col + len(op) + len(m)))
+        parts.append(op + m + cl)
+        col += len(op) + len(m) + len(cl) + 2
+    return ", ".join(parts), spans
+
+
 def render_module(uni, slot, module, style=None):
     """module: {"present":..,"valid":..,"items":[item..]} as printed by TLC. Returns Rendered."""
     r = Rendered()
@@ -145,13 +160,10 @@ def render_module(uni, slot, module, style=None):
             if cmarks:
                 cls_counter += 1
                 head = "@pytest.mark.usefixtures("
-                col = len(head)
-                parts = []
-                for j, m in enumerate(cmarks):
-                    r.use_pos[(idx, "c", j + 1)] = (len(lines) + 1, col + 1, col + 1 + len(m))
-                    parts.append('"%s"' % m)
-                    col += len(m) + 4
-                lines.append(head + ", ".join(parts) + ")")
+                txt, spans = _lit_parts(cmarks, len(head), "strform" in st_flags, idx + 1)
+                for j, (a, b) in enumerate(spans):
+                    r.use_pos[(idx, "c", j + 1)] = (len(lines) + 1, a, b)
+                lines.append(head + txt + ")")
                 lines.append("class TestC%d:" % cls_counter)
                 indent = "    "
             # a function carrying both: the parametrize decorator is written ABOVE the usefixtures decorator
@@ -166,13 +178,10 @@ def render_module(uni, slot, module, style=None):
                 lines.append(head + '"%s", %s, indirect=True)' % (s, vals))
             if marks:
                 head = indent + "@pytest.mark.usefixtures("
-                col = len(head)
-                parts = []
-                for j, m in enumerate(marks):
-                    r.use_pos[(idx, "m", j + 1)] = (len(lines) + 1, col + 1, col + 1 + len(m))
-                    parts.append('"%s"' % m)
-                    col += len(m) + 4
-                lines.append(head + ", ".join(parts) + ")")
+                txt, spans = _lit_parts(marks, len(head), "strform" in st_flags, idx)
+                for j, (a, b) in enumerate(spans):
+                    r.use_pos[(idx, "m", j + 1)] = (len(lines) + 1, a, b)
+                lines.append(head + txt + ")")
             head = indent + "def %s(" % it["name"]
             col = len(head)
             parts = []
@@ -212,13 +221,10 @@ def render_module(uni, slot, module, style=None):
             r.item_line[idx] = ln
         elif k == "pmark":
             head = "pytestmark = pytest.mark.usefixtures("
-            col = len(head)
-            parts = []
-            for j, m in enumerate(_seq(it["marks"])):
-                r.use_pos[(idx, "pm", j + 1)] = (ln, col + 1, col + 1 + len(m))
-                parts.append('"%s"' % m)
-                col += len(m) + 4
-            lines.append(head + ", ".join(parts) + ")")
+            txt, spans = _lit_parts(_seq(it["marks"]), len(head), "strform" in st_flags, idx + 2)
+            for j, (a, b) in enumerate(spans):
+                r.use_pos[(idx, "pm", j + 1)] = (ln, a, b)
+            lines.append(head + txt + ")")
             r.item_line[idx] = ln
         else:
             raise ToolError("unknown item kind %r" % k)
@@ -261,6 +267,9 @@ def _mark_call(d, what):
     return None
 
 
+_SRC_LINES = []      # lines of the text pyextract is working on (for the true content span of a string literal)
+
+
 def _usefixtures(decos):
     out = []
     for d in decos:
@@ -268,7 +277,15 @@ def _usefixtures(decos):
         if c:
             for a in c.args:
                 if isinstance(a, ast.Constant) and isinstance(a.value, str):
-                    out.append((a.value, a.lineno, a.col_offset + 1, a.end_col_offset - 1))
+                    op, cl = 1, 1
+                    if _SRC_LINES and a.lineno == a.end_lineno:
+                        raw = _SRC_LINES[a.lineno - 1][a.col_offset:a.end_col_offset]
+                        i = 0
+                        while i < len(raw) and raw[i] not in "'\"":
+                            i += 1
+                        q = 3 if raw[i:i + 3] in ("\"\"\"", "'''") else 1
+                        op, cl = i + q, q
+                    out.append((a.value, a.lineno, a.col_offset + op, a.end_col_offset - cl))
     return out
 
 
@@ -301,6 +318,7 @@ def _indirect(decos):
 def pyextract(text, uni=None, slot=None):
     """Abstract items (same shape as the spec's) + positions, from CPython's ast."""
     tree = ast.parse(text)
+    _SRC_LINES[:] = text.split("\n")
     items = []
     pos = []   # per item: {"line":.., "uses": {(uk,ui):(line,cs,ce)}}
 
